@@ -8,7 +8,16 @@
    - inside every condition callback no OTHER thread is inside a write critical section (C06);
    - returns: lock held in the caller's mode; 0 iff the condition is true at return; ETIMEDOUT only at/after the deadline;
      ECANCELED only with the note notified (C05). */
+#include "nsync_cpp.h"
+#include "platform.h"
+#include "compiler.h"
+#include "cputype.h"
 #include "nsync.h"
+#include "dll.h"
+#include "sem.h"
+#include "wait_internal.h"
+#include "common.h"
+#include "atomic.h"
 #include "vrt.h"
 #include <stdio.h>
 #include <errno.h>
@@ -22,15 +31,40 @@ static struct box b0 = { 0 }, b0_alias = { 0 }, b1 = { 1 }, b2 = { 2 };
 #define WOWNER 8               /* shadow: tid of the thread inside a write section, or 0 */
 static int64_t ts_ns (nsync_time t) { return (int64_t) t.tv_sec * 1000000000LL + t.tv_nsec; }
 
+/* tie with coq/Model/MuWaitModel.v (replay/muwait_replay.ml): condition functions and arguments have small ids,
+   announced in trace notes: "mwait tid f a eq deadline_ns|none cancellable", "mwret tid r", "eval tid f a result",
+   "setc tid f a value" (the truth of condition f on argument a changed inside this write section). */
+static int arg_id (const void *v);
+/* canonical snapshot: the mutex queue head first, each waiter with its same_condition neighbours */
+static void snapshot (char *buf, size_t n) {
+	size_t k = 0;
+	nsync_dll_element_ *last = mu.waiters, *p;
+	k += snprintf (buf + k, n - k, "Q");
+	if (last != NULL) {
+		p = last->next;
+		for (;;) {
+			char nm[40], np[40], nn[40];
+			waiter *w = CONTAINER (waiter, nw, (struct nsync_waiter_s *) p->container);
+			vrt_region_name (p->container, nm, sizeof (nm));
+			vrt_region_name (w->same_condition.prev, np, sizeof (np));
+			vrt_region_name (w->same_condition.next, nn, sizeof (nn));
+			k += snprintf (buf + k, n - k, " %s/%s/%s", nm, np, nn);
+			if (p == last || k > n - 130) break;
+			p = p->next;
+		}
+	}
+}
 static void check_eval (void) {
 	long o = vrt_sh_get (WOWNER);
 	vrt_count ("cond_eval");
 	if (o != 0 && o != vrt_self ()) vrt_fail ("C06", "condition evaluated by thread %d while thread %ld is inside a write critical section", vrt_self (), o);
 }
-static int nonzero (const void *v) { check_eval (); return x[((const struct box *) v)->idx] != 0; }
-static int two (const void *v) { check_eval (); return x[((const struct box *) v)->idx] >= 2; }
+static int nonzero (const void *v) { int r; check_eval (); r = x[((const struct box *) v)->idx] != 0; vrt_note ("eval %d 0 %d %d", vrt_self (), arg_id (v), r); return r; }
+static int two (const void *v) { int r; check_eval (); r = x[((const struct box *) v)->idx] >= 2; vrt_note ("eval %d 1 %d %d", vrt_self (), arg_id (v), r); return r; }
 static int box_eq (const void *a, const void *b) { return ((const struct box *) a)->idx == ((const struct box *) b)->idx; }
 
+static int arg_id (const void *v) { return v == &b0 ? 0 : v == &b0_alias ? 1 : v == &b1 ? 2 : v == &b2 ? 3 : 4; }
+static void announce_wait (int (*f) (const void *), const void *arg, int has_eq, int timed, nsync_time dl, int canc);
 static void wsection_begin (void) { vrt_acquired (&mu, 1); vrt_sh_set (WOWNER, vrt_self ()); }
 static void wsection_end (void) { vrt_sh_set (WOWNER, 0); vrt_releasing (&mu, 1); }
 
@@ -52,7 +86,9 @@ static void waiter_thr (void *a) {
 	if (timed) dl = vrt_abs ((int64_t) vrt_rand (5) * 900 - 900);
 	if (writer) { nsync_mu_lock (&mu); wsection_begin (); } else { nsync_mu_rlock (&mu); vrt_acquired (&mu, 0); }
 	if (writer) wsection_end (); else vrt_releasing (&mu, 0);
+	announce_wait (f, arg, eq != NULL, timed, dl, canc);
 	r = nsync_mu_wait_with_deadline (&mu, f, arg, eq, dl, canc ? cancel : NULL);
+	vrt_note ("mwret %d %d", vrt_self (), r);
 	if (writer) wsection_begin (); else vrt_acquired (&mu, 0);
 	truth = f == NULL ? 1 : (f == nonzero ? x[arg->idx] != 0 : x[arg->idx] >= 2);
 	if ((r == 0) != (truth != 0)) vrt_fail ("C05", "nsync_mu_wait_with_deadline returned %d but the condition is %s", r, truth ? "true" : "false");
@@ -65,8 +101,11 @@ static void setter (void *a) {
 	int i = (int) (long) a;
 	nsync_mu_lock (&mu); wsection_begin ();
 	x[i]++;
+	if (i == 0) { vrt_note ("setc %d 0 0 1", vrt_self ()); vrt_note ("setc %d 0 1 1", vrt_self ()); }
+	if (i == 1) vrt_note ("setc %d 0 2 1", vrt_self ());
+	if (i == 2) vrt_note ("setc %d 0 3 1", vrt_self ());
 	if (vrt_rand (2)) vrt_point ("in-write-section");
-	if (i == 2) x[2]++;
+	if (i == 2) { x[2]++; vrt_note ("setc %d 1 3 1", vrt_self ()); }
 	wsection_end (); nsync_mu_unlock (&mu);
 	vrt_count ("set");
 }
@@ -85,19 +124,26 @@ static void cvwaiter (void *a) {
 	while (x[1] == 0) { wsection_end (); nsync_cv_wait (&cv, &mu); wsection_begin (); }
 	wsection_end (); nsync_mu_unlock (&mu);
 }
-static void cvsetter (void *a) { nsync_mu_lock (&mu); wsection_begin (); x[1]++; nsync_cv_broadcast (&cv); wsection_end (); nsync_mu_unlock (&mu); }
+static void cvsetter (void *a) { nsync_mu_lock (&mu); wsection_begin (); x[1]++; vrt_note ("setc %d 0 2 1", vrt_self ()); nsync_cv_broadcast (&cv); wsection_end (); nsync_mu_unlock (&mu); }
 static void notifier (void *a) { vrt_point ("n"); nsync_note_notify (cancel); }
 
 /* MODE 1: reader-mode waits whose condition never becomes true and whose deadline expires while other readers hold
    the mutex; afterwards fresh readers and writers must still be able to acquire (nobody may be left asleep on a mutex
    that is free, or only read-held for a reader). */
-static int never (const void *v) { check_eval (); return 0; }
+static int never (const void *v) { check_eval (); vrt_note ("eval %d 2 4 0", vrt_self ()); return 0; }
+static void announce_wait (int (*f) (const void *), const void *arg, int has_eq, int timed, nsync_time dl, int canc) {
+	int fi = f == NULL ? -1 : f == nonzero ? 0 : f == two ? 1 : 2;
+	if (timed) vrt_note ("mwait %d %d %d %d %lld %d", vrt_self (), fi, arg_id (arg), has_eq, (long long) ts_ns (dl), canc);
+	else vrt_note ("mwait %d %d %d %d none %d", vrt_self (), fi, arg_id (arg), has_eq, canc);
+}
 static void m1_timed_reader (void *a) {
 	nsync_time dl = vrt_abs ((int64_t) vrt_rand (4) * 700);
 	int r;
 	nsync_mu_rlock (&mu); vrt_acquired (&mu, 0);
 	vrt_releasing (&mu, 0);
+	announce_wait (never, NULL, 0, 1, dl, 0);
 	r = nsync_mu_wait_with_deadline (&mu, never, NULL, NULL, dl, NULL);
+	vrt_note ("mwret %d %d", vrt_self (), r);
 	vrt_acquired (&mu, 0);
 	if (r != ETIMEDOUT) vrt_fail ("C05", "wait on a false condition returned %d", r);
 	if (vrt_now_ns () < ts_ns (dl)) vrt_fail ("C05", "ETIMEDOUT before the deadline");
@@ -125,6 +171,7 @@ int main (void) {
 	int i, nw = 2 + (int) vrt_rand (3);
 	static char nm[12][8];
 	vrt_register (&mu, sizeof (mu), "mu0");
+	vrt_set_snapshot (snapshot);
 	cancel = nsync_note_new (NULL, nsync_time_no_deadline);
 	if (vrt_opt ("MODE", vrt_rand (3) == 0)) {
 		vrt_thread ("tr", m1_timed_reader, NULL);
